@@ -8,10 +8,13 @@ use super::{
     Check, DEFAULT,
 };
 
+// C01 speaks of "the visible line ... after every insertion, deletion, cursor move, recall and completion":
+// besides the dispatch itself, the line Enter acts on must be what the keys produce (ideal-editor model)
+// and what the terminal shows (emulator), so both comparisons are on as well.
 const FLAGS: Flags = Flags {
     dispatch: true,
-    editor: false,
-    screen: false,
+    editor: true,
+    screen: true,
     framing: false,
     flush: false,
     help_on: true,
@@ -26,11 +29,12 @@ pub fn check() -> Check {
         floor_thorough: 50_000,
         rule: "Random sessions (proptest, vec of ops, shrunk as one value) over characters of 1-4 bytes, quotes, backslashes, dashes, Backspace, Left/Right, Up/Down, Tab, all Enter encodings, known command fragments, \
                Cli::write and set_prompt, for command/history buffer sizes from {0,1,2,3,4,6,8,12,16,32,64} squared (biased small) and three command sets (RawCommand, a derived enum, a derived group with a hidden member). \
-               Oracle: after every non-Enter byte the handler-invocation count is unchanged; at Enter the handler is invoked exactly once with the reference tokens/classification of the line observed (hook) just before, or not at all for blank lines and help requests; \
+               Oracle: after every non-Enter byte the handler-invocation count is unchanged; at Enter the handler is invoked exactly once with the reference tokens/classification of the line, or not at all for blank lines and help requests; \
+               the line Enter acts on (hook) must at every step equal both the ideal-editor model of the keys typed and what the terminal emulator shows after the prompt (the visible line); \
                afterwards the line is empty and the terminal emulator shows one fresh prompt on a new last row. \
                Non-trivial = an Enter on a line with at least one token that was built using a cursor move, backspace, recall, completion or a rejected character; distinct by (line bytes, buffer sizes).",
         assumptions: &[
-            "the dispatch is compared with the reference tokenisation of the line as observed through the hook immediately before Enter (attribution: editor and decoder defects are reported by C05/C04)",
+            "recall and completion replace the model line by the observed one (their content is C10's / C11's business); keys use canonical encodings (terminator and CSI corner cases belong to C04)",
             "lines touching quoting escapes left open by C07 are checked for the invocation count only; `help` followed by an option is left open (skipped_unspecified)",
         ],
         ..DEFAULT
